@@ -140,12 +140,14 @@ func (a *ArrayAccess) String() string {
 // ObjectLiteral represents an object literal in the source code.
 type ObjectLiteral struct {
 	Properties map[string]Expr
+	Keys       []string // property names in source order (each name once)
 }
 
 func (o *ObjectLiteral) String() string {
 	val := "{"
 	i := 0
-	for key, value := range o.Properties {
+	for _, key := range o.Keys {
+		value := o.Properties[key]
 		if i > 0 {
 			val += ", "
 		}
